@@ -28,9 +28,14 @@ structure AStream where
   established : Bool
   /-- the last message this stream delivered (seed included) -/
   lastSeen : Option VId := none
+  /-- the register (0 = the single register of an unkeyed resource; otherwise the item's id) this stream is bound to -/
+  key : Nat := 0
+  /-- the item was deleted: the stream has to END (PullID returns on REMOVE) -/
+  ending : Bool := false
 
 structure Acc where
-  cur : Option VId
+  /-- key ↦ register value (absent: unknown yet / no such item) -/
+  regs : List (Nat × VId) := []
   streams : List AStream
   facts : List ((MId × VId) × VId)
   /-- background mode: an accepted Update started server-side writes (a tween); until the harness reports
@@ -38,7 +43,13 @@ structure Acc where
   has to END: the background job's target, or the response of a later Update that interrupted it -/
   bg : Bool := false
 
-def Acc.init : Acc := { cur := none, streams := [], facts := [] }
+def Acc.init : Acc := { streams := [], facts := [] }
+
+def Acc.curOf (a : Acc) (k : Nat) : Option VId := (a.regs.find? (·.1 = k)).map (·.2)
+
+def Acc.setCur (a : Acc) (k : Nat) (v : VId) : Acc := { a with regs := (k, v) :: a.regs.filter (·.1 ≠ k) }
+
+def Acc.delCur (a : Acc) (k : Nat) : Acc := { a with regs := a.regs.filter (·.1 ≠ k) }
 
 /-- projection by table; `none` when the harness did not supply the fact -/
 def Acc.proj (a : Acc) (m : MId) (v : VId) : Option VId :=
@@ -46,12 +57,15 @@ def Acc.proj (a : Acc) (m : MId) (v : VId) : Option VId :=
 
 inductive Obs
   | fact (m : MId) (v p : VId)
-  | get (m : MId) (w : VId)
-  | updok (v : VId)
+  | get (k : Nat) (m : MId) (w : VId)
+  | getnf (k : Nat)              -- Get answered NotFound
+  | updok (k : Nat) (v : VId)    -- also Create
   | upderr
-  | updokbg (v target : VId)   -- Update accepted, background writes started; `target`: where they end
+  | delete (k : Nat)             -- the item was deleted: its streams must end
+  | ended (i : Nat)              -- stream i ended (without being cancelled)
+  | updokbg (k : Nat) (v target : VId)   -- Update accepted, background writes started; `target`: where they end
   | quiesce                    -- the harness waited past the background job's deadline and drained
-  | open_ (m : MId) (uo : Bool)
+  | open_ (k : Nat) (m : MId) (uo : Bool)
   | recv (i : Nat) (w : VId) (nameOk : Bool)
   | idle (i : Nat)
   | close (i : Nat)
@@ -89,8 +103,8 @@ def qIdle (q : List Entry) : Verdict :=
   | none => .ok
   | some e => .reject (if e.seed then "Pull/seed-missing" else "Pull/update-missing-on-stream")
 
-def pushEntry (a : Acc) (prev : Option VId) (v : VId) (s : AStream) : Option AStream :=
-  if !s.live then some s else
+def pushEntry (a : Acc) (k : Nat) (prev : Option VId) (v : VId) (s : AStream) : Option AStream :=
+  if !s.live || s.key ≠ k then some s else
   match a.proj s.mask v with
   | none => none
   | some w =>
@@ -103,40 +117,52 @@ def pushEntry (a : Acc) (prev : Option VId) (v : VId) (s : AStream) : Option ASt
 
 def accept (a : Acc) : Obs → Acc × Verdict
   | .fact m v p => ({ a with facts := ((m, v), p) :: a.facts }, .ok)
-  | .get m w =>
-    match a.cur with
-    | none => if m = 0 then ({ a with cur := some w }, .ok) else (a, .ok)
+  | .get k m w =>
+    match a.curOf k with
+    | none => if m = 0 then (a.setCur k w, .ok) else (a, .ok)
     | some c =>
       match a.proj m c with
       | none => (a, .missingFact)
       | some p =>
         if p = w then (a, .ok)
         else (a, .reject (if m = 0 then "Get/differs-from-register" else "Get/masked-get-not-projection"))
-  | .updokbg _ target =>
-    ({ a with cur := some target, bg := true, streams := a.streams.map fun s => { s with queue := [] } }, .ok)
+  | .getnf k =>
+    match a.curOf k with
+    | none => (a, .ok)
+    | some _ => (a, .reject "Get/not-found-for-existing-item")
+  | .updokbg k _ target =>
+    ({ a.setCur k target with bg := true, streams := a.streams.map fun s => { s with queue := [] } }, .ok)
   | .quiesce =>
-    match a.cur with
-    | none => ({ a with bg := false }, .ok)
-    | some c =>
-      -- every live, established stream must have ENDED on the register's value
-      match a.streams.mapM (fun s => if s.live && s.established then (a.proj s.mask c).map (fun p => s.lastSeen == some p) else some true) with
-      | none => (a, .missingFact)
-      | some oks =>
-        if oks.all id then ({ a with bg := false }, .ok)
-        else ({ a with bg := false }, .reject "Pull/stream-does-not-end-on-register")
-  | .updok v =>
-    if a.bg then ({ a with cur := some v }, .ok) else
-    match a.streams.mapM (pushEntry a a.cur v) with
+    -- every live, established stream must have ENDED on its register's value
+    match a.streams.mapM (fun s =>
+        match a.curOf s.key with
+        | none => some true
+        | some c => if s.live && s.established then (a.proj s.mask c).map (fun p => s.lastSeen == some p) else some true) with
     | none => (a, .missingFact)
-    | some ss => ({ a with cur := some v, streams := ss }, .ok)
+    | some oks =>
+      if oks.all id then ({ a with bg := false }, .ok)
+      else ({ a with bg := false }, .reject "Pull/stream-does-not-end-on-register")
+  | .updok k v =>
+    if a.bg then (a.setCur k v, .ok) else
+    match a.streams.mapM (pushEntry a k (a.curOf k) v) with
+    | none => (a, .missingFact)
+    | some ss => ({ a.setCur k v with streams := ss }, .ok)
   | .upderr => (a, .ok)
-  | .open_ m uo =>
-    match a.cur, uo with
+  | .delete k =>
+    ({ a.delCur k with streams := a.streams.map fun s => if s.live && s.key = k then { s with ending := true } else s }, .ok)
+  | .ended i =>
+    match a.streams[i]? with
+    | none => (a, .reject "Pull/stream-ended")
+    | some s =>
+      if s.ending then ({ a with streams := setAt a.streams i fun s => { s with live := false, ending := false } }, .ok)
+      else (a, .reject "Pull/stream-ended")
+  | .open_ k m uo =>
+    match a.curOf k, uo with
     | some c, false =>
       match a.proj m c with
       | none => (a, .missingFact)
-      | some p => ({ a with streams := a.streams ++ [{ mask := m, queue := [{ val := p, must := true, seed := true }], live := true, established := true }] }, .ok)
-    | _, _ => ({ a with streams := a.streams ++ [{ mask := m, queue := [], live := true, established := false }] }, .ok)
+      | some p => ({ a with streams := a.streams ++ [{ mask := m, queue := [{ val := p, must := true, seed := true }], live := true, established := true, key := k }] }, .ok)
+    | _, _ => ({ a with streams := a.streams ++ [{ mask := m, queue := [], live := true, established := false, key := k }] }, .ok)
   | .recv i w nameOk =>
     match a.streams[i]? with
     | none => (a, .reject "Pull/unexpected-stream-message")
@@ -152,6 +178,7 @@ def accept (a : Acc) : Obs → Acc × Verdict
     match a.streams[i]? with
     | none => (a, .ok)
     | some s =>
+      if s.ending then (a, .reject "Pull/not-ended-after-delete") else
       match qIdle s.queue with
       | .ok => (a, .ok)
       | v => ({ a with streams := setAt a.streams i fun s => { s with queue := [] } }, v)
